@@ -27,6 +27,10 @@ type Grammar struct {
 	Start  int
 	ErrorT int // id of the ERROR terminal
 
+	// Unproductive lists the non-terminals that derive no terminal string
+	// (removed from Prods by finish): a grammar with any is not reduced.
+	Unproductive []string
+
 	byLHS    [][]int
 	nullable []bool
 	minH     []int // minimal derivation height per NT (large = unproductive)
@@ -192,6 +196,12 @@ func (g *Grammar) finish() {
 				g.minH[p.LHS] = h + 1
 				changed = true
 			}
+		}
+	}
+	g.Unproductive = nil
+	for i, h := range g.minH {
+		if h == inf {
+			g.Unproductive = append(g.Unproductive, g.NTs[i])
 		}
 	}
 	var kept []Prod
